@@ -28,7 +28,17 @@ Definition error_formats_ok : bool :=
     type is the tokenizer's error type); the parser raises only [tokenizer.error(...)] or [KeyValError(...)]. *)
 Definition tokenizer_sites_all_guarded : bool := match K.tok_unguarded_sites with [] => true | _ => false end.
 Definition tokenizer_raises_only_through_error : bool := match K.tok_foreign_raises with [] => true | _ => false end.
+(** The premise of [ProgProofs.chunk_independent] read from the source: outside [__init__] and [_next_char] the tokenizer
+    touches [_cur_chunk] / [_char_index] / [_chunk_iter] only by [self._char_index -= 1], and never twice without a read in
+    between - i.e. its functions ARE reader programs ([Prog.Next u k]: read, optionally push that character back). *)
+Definition tokenizer_sees_chunks_only_through_next_char : bool :=
+  match K.tok_chunk_state_foreign_accesses with [] => true | _ => false end.
+Definition tokenizer_pushes_back_only_after_a_read : bool :=
+  match K.tok_pushbacks_without_read with [] => true | _ => false end.
 Definition kvparse_raises_only_keyvalerror : bool := match K.kv_foreign_raises with [] => true | _ => false end.
+(** ... and that type IS KeyValError on every path: [Tokenizer(..., KeyValError, ...)] for a text, [tokenizer.error_type =
+    KeyValError] unconditionally for a tokenizer passed in (the model calls every [K_LEX] exit a KeyValError). *)
+Definition kvparse_tokenizer_errors_are_keyvalerror : bool := K.kv_error_type_installed.
 
 (* ---- outcome codes shared with checks/c03.py ---- *)
 Definition kerr_code (e : kerr) : N :=
